@@ -18,9 +18,12 @@ mkdir -p $OUT; cp patch.diff demo_$ID.py $OUT/; cp notes.txt $OUT/notes.txt 2>/d
 cd /verif
 # (scratch worktree with the patch applied; /repo itself is left alone so that other work can go on.
 #  The registered way -- git -C /repo apply; bin/check; git -C /repo checkout -- . -- gives the same result.)
-(cd $WT && git apply patch.diff)
-VERIF_REPO_SRC=$WT/src timeout 3000 bin/check $ID --no-evidence > /tmp/seed_$ID$SFX.check.log 2>&1; RC_CHECK=$?
-(cd $WT && git apply -R patch.diff)
+CHK=/tmp/chk_$ID$SFX
+git -C /repo worktree remove --force $CHK 2>/dev/null
+git -C /repo worktree add -q $CHK HEAD
+(cd $CHK && git apply $OUT/patch.diff) || echo "patch does not apply to current HEAD"
+VERIF_REPO_SRC=$CHK/src timeout 3000 bin/check $ID --no-evidence > /tmp/seed_$ID$SFX.check.log 2>&1; RC_CHECK=$?
+git -C /repo worktree remove --force $CHK
 NV=$(grep -c '^VIOLATION' /tmp/seed_$ID$SFX.check.log)
 python3 - <<PY
 import json
